@@ -564,6 +564,8 @@ static void inverse_family(Ctx& c, const Inv& k, const gh::Solvers& S, const G& 
   std::string sv = e.sname();
   // thin regime with its own keys: prolate, both points near the equator, longitude difference near 180 (the inverse solver itself is off there)
   std::string rp = (k.e.f < -0.2 && std::max(std::fabs(k.lat1), std::fabs(k.lat2)) < 2 && std::fabs(std::remainder(k.lon2 - k.lon1, 360.0)) > 120) ? "/prolate-near-equatorial-near-antipodal" : "";
+  // second thin regime of the inverse solver: very oblate (f > 0.3), both points within 1e-12 deg of the equator but not both exactly on it
+  if (k.e.f > 0.3 && std::max(std::fabs(k.lat1), std::fabs(k.lat2)) < 1e-12 && (k.lat1 != 0 || k.lat2 != 0)) rp = "/very-oblate-within-1e-12deg-of-equator";
   {
     Slot<L> si;
     L& li = si.make(0, [&] { dirty_stack(-1.0); return g.InverseLine(k.lat1, k.lon1, k.lat2, k.lon2); });
